@@ -46,6 +46,34 @@ fn sig_time(p: &rpm::Package) -> String {
     "-".into()
 }
 
+/// the signatures under RPMSIGTAG_OPENPGP (base64 text per item): `<count>:<creation time of each, '+'-joined>:<1 when the
+/// first one is byte-identical to the blob under the legacy RSA / DSA tag>` (theorem `sigtime_clamped`: ONE signature, the
+/// same packet in both places, created at the clamped time); "-" when the tag is absent
+fn sig_time_openpgp(p: &rpm::Package) -> String {
+    use pgp::packet::{Packet, PacketParser};
+    use std::io::Read;
+    let Ok(texts) = p.metadata.signature.get_entry_data_as_string_array(rpm::IndexSignatureTag::RPMSIGTAG_OPENPGP) else { return "-".into() };
+    let mut times: Vec<String> = Vec::new();
+    let mut first: Option<Vec<u8>> = None;
+    for t in texts {
+        let mut raw = Vec::new();
+        let mut dec = pgp::base64_decoder::Base64Decoder::new(pgp::base64_reader::Base64Reader::new(t.as_bytes()));
+        if dec.read_to_end(&mut raw).is_err() { times.push("undecodable".into()); continue; }
+        let mut tm = "none".to_string();
+        for pk in PacketParser::new(std::io::Cursor::new(&raw[..])) {
+            if let Ok(Packet::Signature(s)) = pk {
+                if let Some(c) = s.created() { tm = c.timestamp().to_string(); }
+                break;
+            }
+        }
+        times.push(tm);
+        if first.is_none() { first = Some(raw); }
+    }
+    let legacy = [rpm::IndexSignatureTag::RPMSIGTAG_RSA, rpm::IndexSignatureTag::RPMSIGTAG_DSA].iter()
+        .find_map(|&tag| p.metadata.signature.get_entry_data_as_binary(tag).ok().map(|b| b.to_vec()));
+    format!("{}:{}:{}", times.len(), times.join("+"), (first.is_some() && first == legacy) as u8)
+}
+
 /// greatest c_mtime of the newc / crc entries of an uncompressed archive ("-" when the archive cannot be walked)
 fn max_cpio_mtime(arch: &[u8]) -> String {
     let mut pos = 0usize;
@@ -121,10 +149,10 @@ fn observe(tokens: &[&str]) -> String {
     let mt = p.metadata.get_file_entries().map(|v| v.iter().map(|f| f.modified_at.0).max().unwrap_or(0)).unwrap_or(0);
     let cmt = arch.as_ref().map(|a| max_cpio_mtime(a)).unwrap_or("-".into());
     format!(
-        "ok paysha={} archsha={} runs={} distinct={} hdr={:016x} bt={} mt={} st={} cmt={}",
+        "ok paysha={} archsha={} runs={} distinct={} hdr={:016x} bt={} mt={} st={} cmt={} sto={}",
         sha256_hex(&first[pl..]), arch.map(|a| sha256_hex(&a)).unwrap_or("undecodable".into()),
         ids.len(), distinct.len(), fnv(&first[h..pl]),
-        p.metadata.get_build_time().map(|x| x.to_string()).unwrap_or("-".into()), mt, sig_time(&p), cmt
+        p.metadata.get_build_time().map(|x| x.to_string()).unwrap_or("-".into()), mt, sig_time(&p), cmt, sig_time_openpgp(&p)
     )
 }
 
